@@ -122,3 +122,24 @@ Proof.
   destruct (background_bounded gen_cfg gen_t0 gen_evs gen_selectors_in_range gen_bg_scripts_ok) as [[o [what [Ho Hp]]]|H]; [|exact H].
   exfalso. exact (gen_no_panic o what Ho Hp).
 Qed.
+
+(* ---- the monitor's learner bookkeeping on the model's own traces (e_learn, c07_learners_match) ----
+   hypothesis on histories: no identifier occurs twice in the learner scripts (boolean checker below) *)
+Theorem learner_ids_uniqueb_sound : forall evs, learner_ids_uniqueb evs = true -> learner_ids_unique evs.
+Proof. exact learner_ids_uniqueb_sound. Qed.
+Print Assumptions learner_ids_uniqueb_sound.
+Example generated_history_learner_ids_unique : learner_ids_unique gen_evs.
+Proof. apply learner_ids_uniqueb_sound. vm_compute. reflexivity. Qed.
+
+(* a task that holds a learner has an action (hence, uncompleted, it lists operations) *)
+Theorem learner_holder_has_action : forall cfg t0 evs, LD (fst (run (init cfg t0) evs)).
+Proof. exact LD_run. Qed.
+Print Assumptions learner_holder_has_action.
+
+(* every terminal call of the model's trace finds its learner in the monitor's list, and the list has as many
+   entries as the dump shows tasks holding a learner (positions 16 and 18 of p_components) *)
+Theorem monitor_learners_on_model : forall cfg t0 evs,
+  selectors_in_range (init cfg t0) evs -> fresh_calls [] evs -> bg_scripts_ok evs -> learner_ids_unique evs ->
+  panicked (snd (run (init cfg t0) evs)) \/ trace_sub [16%nat; 18%nat] cfg t0 (model_trace cfg t0 evs) = true.
+Proof. exact monitor_learners_on_model. Qed.
+Print Assumptions monitor_learners_on_model.
